@@ -1388,6 +1388,11 @@ class Gen:
         sc = {"name": f"KS{len(scs)}", "type": t, "text": tx, "value": v}
         scs.append(sc)
       cls["connects"].append([p, {"const": sc["value"], "name": sc["name"]}]); return
+    if child and k.get("p_connect_reset") and p["w"] == 1 and (isinstance(t, int) or not whole) and rng.random() < k["p_connect_reset"]:
+      # a 1-bit input (or one bit of an input) of a child is tied to the PARENT's own reset ( s.cnt.clear //= s.reset )
+      cls["connects"].append([p, {"path": "reset", "steps": [], "lo": 0, "w": 1}]); self.connect_ranks.add(rank)
+      self.design.setdefault("stats", {}).setdefault("child_inputs_tied_to_parent_reset", 0); self.design["stats"]["child_inputs_tied_to_parent_reset"] += 1
+      return
     if rng.random() < k["p_connect"] + (0.2 if child else 0):
       # connect: need an equal-width (and, for whole structs, equal-type) source
       cands = list(srcs)
